@@ -2,7 +2,7 @@
 byte ranges in the model file (serde) and from the code that RE-ATTACHES loaded external
 tensors to their directory (load -> set_base_dir -> _all_tensors).
 
-Run: cd /tmp/wt_c07tr && PYTHONPATH=/tmp/wt_c07tr/src /venv/bin/python /tmp/seed_out/C07_tr/demo.py
+Run: PYTHONPATH=<tree>/src python demo.py
 """
 
 from __future__ import annotations
